@@ -10,6 +10,8 @@
 import CxVerif.Extracted.KernelsSha512
 import CxVerif.Proofs.KeccakTactic
 namespace Cx.Props.C01.KernelTieSha512
+-- a small heartbeat budget makes a FAILING check (elaborator `rfl` or kernel) stop after seconds; a passing one needs < 1000
+set_option maxHeartbeats 20000
 open Cx Cx.Impl Cx.Impl.Sha2 Cx.Spec.Sha2 Cx.Extracted.KernelsSha512 Cx.Proofs.Keccak
 
 theorem sha512load_src_eq_model (v0 v1 : Impl512.u64x2) : sha512load_src v0 v1 = Impl512.sha512load v0 v1 := rfl
@@ -18,8 +20,6 @@ theorem schedule_x2_src_eq_model (v0 v1 v4to5 v7 : Impl512.u64x2) :
 theorem digest_round_src_eq_model (ae bf cg dh : Impl512.u64x2) (wk0 : UInt64) :
     digest_round_src ae bf cg dh wk0 = Impl512.digest_round ae bf cg dh wk0 := rfl
 
--- (a small heartbeat budget makes a FAILING kernel check stop after seconds; a passing one needs < 1000)
-set_option maxHeartbeats 20000 in
 /-- `digest_block_u64` as written in the source = the model, on every state and every sixteen words -/
 theorem digest_block_u64_src_eq_model_words (state : W8 UInt64)
     (b0 b1 b2 b3 b4 b5 b6 b7 b8 b9 b10 b11 b12 b13 b14 b15 : UInt64) :
